@@ -58,6 +58,19 @@ def gen_grid_trace(seed, prop, tier):
     parse, [retain], generate_mesh, the same generate_mesh again, Frame, [release]."""
     base, idx = divmod(seed, 1_000_000)
     g = idx // 4
+    if g % 12 == 0:
+        # every shipped skeleton, whole, under the 8 symmetries of the square and with / without mirror_y
+        files = shipped.image_files()
+        combos = len(files) * 16
+        k = (base * 37 + (g // 12) * 11) % combos
+        inp = {"kind": "image", "file": files[k % len(files)], "sym": (k // len(files)) % 8, "pad": [0, 5][k % 2],
+               "mirror_y": bool(k // (len(files) * 8)), "reduce_amount": False}
+        ne = [6, 3, 9, 4][(g // 12) % 4]
+        steps = [{"op": "parse", "slot": 0, "input": 0},
+                 {"op": "generate_mesh", "slot": 0, "ne": ne, "rse": None},
+                 {"op": "frame", "slot": 0, "gt": False, "keep": False}]
+        return {"kind": "mesh", "prop": prop, "config": "grid", "seed": seed, "inputs": [inp], "steps": steps,
+                "release_order": "fifo", "grid": {"shipped": inp["file"], "sym": inp["sym"], "mirror_y": inp["mirror_y"], "ne": ne}}
     tissue_no, cell = divmod(g, GRID_SIZE)
     ne = GRID_NE[cell % len(GRID_NE)]
     if prop == "C09" and ne < 2:
